@@ -106,3 +106,13 @@ func Sentence(r *rng.R) string {
 	}
 	return strings.Join(parts, " ")
 }
+
+// RandomHex returns n hexadecimal digits (text that compresses to about half its size, not further).
+func RandomHex(r *rng.R, n int) string {
+	const hex = "0123456789abcdef"
+	b := make([]byte, n)
+	for i := range b {
+		b[i] = hex[r.Intn(16)]
+	}
+	return string(b)
+}
